@@ -42,6 +42,8 @@ def cases(c):
         for rel in rels:
             for j in range(n):
                 N = int(rng.integers(16, 72))
+                if j % 20 == 19 and cls in ('Periodogram', 'pyule', 'pcorrelogram', 'pma', 'parma'):
+                    N = int(rng.integers(513, 800))            # long records
                 params = E.draw(rng, cls, N)
                 nf0 = max(E.min_nfft(cls, params, N), N if (cls in ('Periodogram', 'MultiTapering') or rel == 'reverse') else 0)
                 NFFT = int(nf0 + rng.integers(0, 40))
